@@ -123,3 +123,16 @@ Print Assumptions C05_reject_underflow.
     statements are not about an empty set of runs *)
 Example C05_nonvacuous : exists st, doc_verify [] ok_claim ok_proof = Some st /\ WF st.
 Proof. eexists. split; [vm_compute; reflexivity|]. split; repeat constructor. Qed.
+
+(** ** the same, stated of the source text: [gen_verify] / [gen_step_i] are the statement-by-statement translation of [verify] /
+       [execute_instructions] of the CURRENT rust/src/lib.rs (Gen/Exec.v, regenerated on every run; ML/GenExec.v proves them equal to the
+       model), so the refinement and every rejection lemma above is a statement about the code as written *)
+From Pi2 Require Import Gen.Exec ML.GenExec.
+Theorem C05_doc_refines_translated_source :
+  forall gamma cl pr st, doc_verify gamma cl pr = Some st -> gen_verify gamma cl pr = Some st.
+Proof. intros gamma cl pr st H. rewrite gen_verify_eq. exact (doc_verify_code gamma cl pr st H). Qed.
+Print Assumptions C05_doc_refines_translated_source.
+Theorem C05_translated_source_is_model :
+  (forall ph i bs st, gen_step_i ph i bs st = step_i guards_sound ph i bs st) /\
+  (forall g c p, gen_verify g c p = verify guards_sound g c p).
+Proof. exact (conj gen_step_i_eq gen_verify_eq). Qed.
